@@ -25,7 +25,7 @@ def content(i, R):
     return (bytes([R.randrange(256) for _ in range(64)]) * (n // 64 + 1))[:n]
 
 
-def build(shape, seed=0, password=None, coder="lzma2", header="lzma", packcrc=False):
+def build(shape, seed=0, password=None, coder="lzma2", header="lzma", packcrc=False, damaged=()):
     """shape: {members:[{kind, folder, pos, parent}], nfolders}.  Returns (raw, info) with info[i] = {name, data, size, crc}"""
     R = random.Random(seed)
     names = shape_names(shape)
@@ -47,14 +47,20 @@ def build(shape, seed=0, password=None, coder="lzma2", header="lzma", packcrc=Fa
     for i in data_idx:
         f = shape["members"][i]["folder"]
         if f != last:
-            cs = [{"id": coder}] + ([{"id": "aes"}] if password else [])
+            cs = [dict({"id": c}, **({"dist": 3} if c == "delta" else {})) for c in coder.split("+")] + ([{"id": "aes"}] if password else [])   # "bcj+lzma2": a chain
             folders.append({"nfiles": 0, "coders": cs, "crc": "substream"})
             last = f
         folders[-1]["nfiles"] += 1
     lay = {"files": files, "header": header if not password else "aes", "password": password, "packcrc": bool(packcrc)}
     if folders:
         lay["folders"] = folders
-    raw, _ = write_archive(lay)
+    raw, regions = write_archive(lay)
+    if damaged:
+        raw = bytearray(raw)
+        for f in damaged:                       # the first byte of the folder's packed stream: its first member is hit for certain
+            a, b = regions[f"pack{f - 1}"][0]
+            raw[a] ^= 0x55
+        raw = bytes(raw)
     return raw, info
 
 
@@ -75,13 +81,14 @@ def _snapshot(root):
     return out
 
 
-def run_calls(py7zr, raw, shape, info, calls, *, target="stream", password=None, ending="close", workdir=None, has_aes=None, extra_folders=0):
+def run_calls(py7zr, raw, shape, info, calls, *, target="stream", password=None, ending="close", workdir=None, has_aes=None, extra_folders=0, damaged=()):
     """calls: list of dicts {name, T:[member index or 0], rec, sink, asset(list|set), slash}.  Returns the trace."""
     names = [x["name"] for x in info]
     idx = {n: i + 1 for i, n in enumerate(names)}
     # needs_password() must be true exactly when an encryption coder is present or a password was supplied
     trace = [arch_event(shape, info, (password is not None) or bool(has_aes), target == "path")]
     trace[0]["extra"] = int(extra_folders)
+    trace[0]["damaged"] = sorted(damaged)
     path = None
     if target == "path":
         path = os.path.join(workdir, "a.7z")
